@@ -22,7 +22,9 @@ class P11:
         env.update(P11.EXTRA_ENV)
         if env_extra:
             env.update(env_extra)
-        self.p = subprocess.Popen([p11drv, lib, '-'], stdin=subprocess.PIPE, stdout=subprocess.PIPE, text=True, bufsize=1, env=env)
+        self.errpath = os.path.join(self.dir, 'stderr.%d.log' % id(self))
+        self.errf = open(self.errpath, 'w')
+        self.p = subprocess.Popen([p11drv, lib, '-'], stdin=subprocess.PIPE, stdout=subprocess.PIPE, stderr=self.errf, text=True, errors='replace', bufsize=1, env=env)
         self.trace = []
         self.timeout = 120
         self.keep = keep
@@ -51,6 +53,13 @@ class P11:
         self.trace.append((line, r))
         return r
 
+    def stderr_text(self):
+        try:
+            self.errf.flush()
+            return open(self.errpath, errors='replace').read()
+        except OSError:
+            return ''
+
     def alive(self):
         return self.p.poll() is None
 
@@ -77,6 +86,12 @@ class P11:
             self.p.wait(timeout=10)
         except Exception:
             self.p.kill()
+        try:
+            self.errf.close()
+            if self.keep:
+                os.remove(self.errpath)
+        except OSError:
+            pass
         if not self.keep:
             shutil.rmtree(self.dir, ignore_errors=True)
 
